@@ -1455,11 +1455,16 @@ impl<'a, A: Write, B: Write> Gen<'a, A, B> {
         let paused_now =
             hub_params(self.w()).map(|p| p.paused.unwrap_or(false)).unwrap_or(false);
         let p_write = if paused_now && old_wait_count(self.w()) > 0 { 25 } else { 55 };
+        if self.r.pct(6) {
+            // a code upgrade of one of the contracts: all migrate entry points are no-ops
+            return Op::Migrate { contract: s(self.r.pick(&["hub", "reward", "disp", "reg", "bsei"])) };
+        }
         if self.r.pct(p_write) {
             Op::LegacyWait {
                 addr: s(USERS[self.r.below(8) as usize]),
                 batch: self.r.range(1, 9),
-                amt: self.log_uniform(1, 100_000),
+                // zero-amount entries exist too (a request eaten by the peg fee)
+                amt: if self.r.pct(15) { 0 } else { self.log_uniform(1, 100_000) },
             }
         } else {
             Op::Hub {
